@@ -7,7 +7,7 @@ PROPERTY = "C13"
 LEVEL = "exploration"
 RULE = (
     "case = (sql, dialect, rule selection) from dialect fixtures <= 4 kB x {all rules, the exact 'sqlfluff format' rule list}, one seeded mutant per fixture, "
-    "the repo's rule yaml examples (with their own configs) under all rules, and lintable Jinja templates; run through the real Linter.lint_string(fix=True); "
+    "the repo's rule yaml examples (with their own configs) under all rules, lintable Jinja templates, and every corpus input on which whole-file validation is known to reject some rule's fix (with fix_even_unparsable off and on); run through the real Linter.lint_string(fix=True); "
     "precondition: source has zero TMP/LXR/PRS; oracle: the fixed text, linted again with the same config, has zero TMP/LXR/PRS and the fixed tree holds no unparsable node; distinct = content hash + rule set; non-trivial = the fix actually changed the text"
 )
 ASSUMPTIONS = ["API route (Linter.lint_string + LintedFile.fix_string); the CLI route is compared with it in C19"]
@@ -16,8 +16,29 @@ MIN_NONTRIVIAL = {"quick": 30, "thorough": 600}
 REQUIRED_COUNTERS = ["reparsed_fixed_texts", "files_changed_by_fix"]
 
 
+def rejects():
+    """Inputs on which (on the tree the list was built from) whole-file validation rejected some rule's fix:
+    the cases where the validation mechanism this property is anchored in actually decides the outcome."""
+    import json
+    import os
+
+    p = os.path.join(os.path.dirname(os.path.dirname(__file__)), "gen", "validation_rejects.json")
+    if not os.path.exists(p):
+        return []
+    out = []
+    for c in json.load(open(p)):
+        for feu in (False, True):
+            d = dict(c)
+            d["id"] = "rej:" + c["id"] + ("|feu" if feu else "") + "|rules=all"
+            d["stratum"] = "rej"
+            if feu:
+                d["core"] = {"fix_even_unparsable": True}
+            out.append(d)
+    return out
+
+
 def universe():
-    return fixcase.base_universe(fx_bytes=4000, mx=1, rulesets=("all", "format"), rc_rulesets=("all",), jj=240)
+    return fixcase.base_universe(fx_bytes=4000, mx=1, rulesets=("all", "format"), rc_rulesets=("all",), jj=240) + rejects()
 
 
 def cases(tier, seed):
@@ -25,7 +46,8 @@ def cases(tier, seed):
     if tier != "quick":
         return u
     # quick: stratified sample + the whole (cheap) width sweep
-    return stratified_sample([c for c in u if not c["id"].startswith("ws:")], lambda c: c.get("stratum", ""), 240, seed) + [c for c in u if c["id"].startswith("ws:")]
+    always = [c for c in u if c["id"].startswith(("ws:", "rej:"))]
+    return stratified_sample([c for c in u if not c["id"].startswith(("ws:", "rej:"))], lambda c: c.get("stratum", ""), 240, seed) + always
 
 
 def run_case(case):
